@@ -1,11 +1,13 @@
 import Tcell.Model.Parser
+import Tcell.Lemmas.SgrStrict
 import Tcell.Base.Dec
 /-
 Lemmas about `parseSgrMouse` on rendered reports `intro < b ; x ; y M|m`: the digit loop is `Dec.accDigits wrap64`,
 a rendered integer is read back exactly (|z| < 2^63), the parser completes at the final byte and ignores what follows.
+A report consists of bytes that have a `case` only, so everything holds for both variants of the loop (`sgrStepV b`).
 -/
 namespace Tcell.Lemmas.SgrMouse
-open Tcell Tcell.Model Tcell.Dec
+open Tcell Tcell.Model Tcell.Dec Tcell.Lemmas.SgrStrict
 
 def two63 : Int := 9223372036854775808
 
@@ -27,6 +29,15 @@ theorem sgrStep_digit (s : SgrSt) (c : Nat) (hc : isDigit c = true) (hn : inNum 
   have e5 : ¬ c = 45 := by omega
   simp [e1, e2, e3, e4, e5, h1, h2, hn]
 
+theorem isDigit_known {c : Nat} (h : isDigit c = true) : sgrKnown c = true := by
+  have ⟨h1, h2⟩ := isDigit_range h
+  simp [sgrKnown, h1, h2]
+
+/-- … in either variant -/
+theorem sgrStepV_digit (b : Bool) (s : SgrSt) (c : Nat) (hc : isDigit c = true) (hn : inNum s = true) :
+    sgrStepV b s c = .cont { s with val := wrap64 (s.val * 10 + ((c : Int) - 48)), dig := true } := by
+  rw [sgrStepV_known b s c (isDigit_known hc)]; exact sgrStep_digit s c hc hn
+
 /-- state after reading a run of digits -/
 def afterDigits (s : SgrSt) (ds : List Nat) : SgrSt :=
   { s with val := accDigits wrap64 s.val ds, dig := s.dig || !ds.isEmpty }
@@ -42,7 +53,7 @@ theorem sgrRun_digits (cfg : Cfg) (st : PState) (ds rest : List Nat) :
     intro s i hd hn
     have hd0 : isDigit d = true := hd d (by simp)
     have hds : ∀ c ∈ ds, isDigit c = true := fun c hc => hd c (by simp [hc])
-    simp only [List.cons_append, sgrRun, sgrStep_digit s d hd0 hn]
+    simp only [List.cons_append, sgrRun, sgrStepV_digit _ s d hd0 hn]
     rw [ih _ (i + 1) hds (by simpa [inNum] using hn)]
     simp [afterDigits, accDigits, Nat.add_assoc, Nat.add_comm 1]
 
@@ -57,6 +68,9 @@ theorem sgrStep_minus (s : SgrSt) (hs : Fresh s) : sgrStep s 45 = .cont { s with
   unfold sgrStep
   simp [hn, hd, hg]
 
+theorem sgrStepV_minus (b : Bool) (s : SgrSt) (hs : Fresh s) : sgrStepV b s 45 = .cont { s with neg := true } := by
+  rw [sgrStepV_known b s 45 (by decide)]; exact sgrStep_minus s hs
+
 theorem accDigits_showDec_wrap (n : Nat) (hn : (n : Int) < two63) : accDigits wrap64 0 (showDec n) = n :=
   accDigits_showDec wrap64 n (fun m hm => wrap64_id m (by unfold two63; omega) (by unfold two63 at *; omega))
 
@@ -66,7 +80,7 @@ theorem sgrRun_showInt (cfg : Cfg) (st : PState) (z : Int) (hz1 : -two63 < z) (h
   obtain ⟨hn, hv, hd, hg⟩ := hs
   unfold showInt
   by_cases hneg : z < 0
-  · simp only [hneg, if_true, List.cons_append, sgrRun, sgrStep_minus s ⟨hn, hv, hd, hg⟩]
+  · simp only [hneg, if_true, List.cons_append, sgrRun, sgrStepV_minus _ s ⟨hn, hv, hd, hg⟩]
     rw [sgrRun_digits cfg st _ rest _ (i + 1) (showDec_allDigits _) (by simpa [inNum] using hn)]
     have hacc := accDigits_showDec_wrap z.natAbs (by unfold two63 at *; omega)
     have hne : (showDec z.natAbs).isEmpty = false := by
@@ -138,6 +152,14 @@ theorem fin5 (b x y : Int) (hy : Fits y) (fin : Nat) (hf : fin = 77 ∨ fin = 10
   (rw [show sgrVal { state := 5, val := ↑y.natAbs, dig := true, neg := decide (y < 0), btn := b, x := x - 1 } = y by
     simpa [afterInt, s5] using hv]; exact hw)
 
+theorem sep3V (v : Bool) (b : Int) (hb : Fits b) : sgrStepV v (afterInt s3 b) 59 = .cont (s4 b) := by
+  rw [sgrStepV_known v _ 59 (by decide)]; exact sep3 b hb
+theorem sep4V (v : Bool) (b x : Int) (hx : Fits x) : sgrStepV v (afterInt (s4 b) x) 59 = .cont (s5 b x) := by
+  rw [sgrStepV_known v _ 59 (by decide)]; exact sep4 b x hx
+theorem fin5V (v : Bool) (b x y : Int) (hy : Fits y) (fin : Nat) (hf : fin = 77 ∨ fin = 109) :
+    sgrStepV v (afterInt (s5 b x) y) fin = .fin (x - 1) (y - 1) b (fin = 109) := by
+  rw [sgrStepV_known v _ fin (by rcases hf with rfl | rfl <;> decide)]; exact fin5 b x y hy fin hf
+
 theorem render_length (intro : List Nat) (b x y : Int) (fin : Nat) :
     (render intro b x y fin).length
       = intro.length + 1 + (showInt b).length + 1 + (showInt x).length + 1 + (showInt y).length + 1 := by
@@ -149,16 +171,16 @@ theorem sgrRun_body (cfg : Cfg) (st : PState) (b x y : Int) (hb : Fits b) (hx : 
     sgrRun cfg st { state := 2 } (60 :: (showInt b ++ (59 :: (showInt x ++ (59 :: (showInt y ++ fin :: rest)))))) i
       = sgrFinish cfg st (x - 1) (y - 1) b (fin = 109)
           (i + 1 + (showInt b).length + 1 + (showInt x).length + 1 + (showInt y).length + 1) := by
-  have h60 : sgrStep { state := 2 } 60 = .cont s3 := by simp [sgrStep, s3]
+  have h60 : sgrStepV cfg.sgrStrict { state := 2 } 60 = .cont s3 := by simp [sgrStepV, sgrKnown, sgrStep, s3]
   rw [sgrRun, h60]
   simp only []
   rw [sgrRun_showInt cfg st b hb.1 hb.2 _ s3 _ fresh_s3]
-  rw [sgrRun, sep3 b hb]
+  rw [sgrRun, sep3V _ b hb]
   simp only []
   rw [sgrRun_showInt cfg st x hx.1 hx.2 _ (s4 b) _ (fresh_s4 b)]
-  rw [sgrRun, sep4 b x hx]
+  rw [sgrRun, sep4V _ b x hx]
   simp only []
   rw [sgrRun_showInt cfg st y hy.1 hy.2 _ (s5 b x) _ (fresh_s5 b x)]
-  rw [sgrRun, fin5 b x y hy fin hf]
+  rw [sgrRun, fin5V _ b x y hy fin hf]
 
 end Tcell.Lemmas.SgrMouse
